@@ -730,7 +730,8 @@ def sources_cell(P, A):
 
 FILE_KINDS = ['roCreate', 'roCreate-completed', 'roStoryMove', 'roDelete', 'roStorySend', 'roElementAction',
               'roReplace', 'roMetadataReplace', 'unknown-xml', 'malformed', 'missing', 'directory',
-              'latin1-roStoryDelete', 'binary-junk', 'roStoryMove-to-bottom']
+              'latin1-roStoryDelete', 'binary-junk', 'roStoryMove-to-bottom', 'roElementAction-no-operation',
+              'roElementAction-odd-shape']
 LATIN1_DOC = ('<?xml version="1.0" encoding="ISO-8859-1"?>\n<mos><messageID>%s</messageID><roStoryDelete>'
               '<roID>RO</roID><storyID>caf\u00e9</storyID></roStoryDelete></mos>')
 VALID_CLASS = {'latin1-roStoryDelete': 'StoryDelete', 'roStoryMove-to-bottom': 'StoryMove','roCreate': 'RunningOrder', 'roCreate-completed': 'RunningOrder (completed)', 'roStoryMove': 'StoryMove',
@@ -753,6 +754,13 @@ def file_of_kind(W, kind, i, mid=None):
         if kind == 'binary-junk':
             return W.bad_file('malformed', name=name)
         return W.doc(msg_builder('roStoryDelete', 'caf\u00e9', mid), kind='file', name=name)
+    if kind in ('roElementAction-no-operation', 'roElementAction-odd-shape'):
+        # well-formed XML that is not a recognisable MOS message: an invalid file like any other
+        def b():
+            if kind.endswith('no-operation'):
+                return B.raw(lambda: M.ea(None, M.ea_target('a'), M.tags('storyID', ['b']), msg_id=mid))
+            return B.raw(lambda: M.ea('SWAP', M.ea_target('a', 'i'), M.tags('itemID', ['b', 'c']), msg_id=mid))
+        return W.doc(b, kind='file', name=name)
     if kind == 'roStoryMove-to-bottom':
         return W.doc(lambda: B.raw(lambda: M.story_move('a', None, msg_id=mid)), kind='file', name=name)
     if kind == 'roCreate':
